@@ -126,6 +126,38 @@ def build_item(item, tmpdir, full=False):
             again = type(e).__name__
         out[key]["same_after_later_builds"] = after == out[key]["table"]
         out[key]["same_when_built_again"] = again == out[key]["table"]
+    if item.get("files") and item.get("pge") is not None:
+        # the caches a process writes next to the grammar (.pgc table, .pgec compiled
+        # error hints) must be byte-identical in every process, and what a parser
+        # built from them reports (hints included) must be the same
+        import shutil
+
+        for kind, cls in (("lr", Parser), ("glr", GLRParser)):
+            d = os.path.join(tmpdir, "cache-" + kind)
+            shutil.rmtree(d, ignore_errors=True)
+            os.makedirs(d)
+            for name, text in item["files"].items():
+                with open(os.path.join(d, name), "w") as fh:
+                    fh.write(text)
+            with open(os.path.join(d, "g.pge"), "w") as fh:
+                fh.write(item["pge"])
+            rec = {}
+            try:
+                p1 = cls(Grammar.from_file(os.path.join(d, "g.pg")))  # writes the caches
+                p2 = cls(Grammar.from_file(os.path.join(d, "g.pg")))  # loads them
+                for suffix in ("pgc", "pgec"):
+                    fp = os.path.join(d, "g." + suffix)
+                    if os.path.exists(fp):
+                        with open(fp, "rb") as fh:
+                            rec[suffix] = sha(fh.read())
+                o1 = [parse_outcome(p1, x, (d,)) for x in item["inputs"]]
+                o2 = [parse_outcome(p2, x, (d,)) for x in item["inputs"]]
+                rec["outcomes"] = o1 if full else sha(json.dumps(o1, sort_keys=True))
+                rec["loaded_same_as_computed"] = {"same": o1 == o2}
+            except Exception as e:
+                rec["exc"] = type(e).__name__
+            out["cache-" + kind] = rec
+            shutil.rmtree(d, ignore_errors=True)
     if item.get("inputs") and not item.get("file"):
         from parglare.tables import create_table as _ct
 
